@@ -514,7 +514,7 @@ class NaryOperator(Operator):
 
         count = 0
         for arg in self.args:
-            fn_str += str(arg)
+            fn_str += str(extractTerm(arg, time))
             count += 1
             if count < num_args:
                 fn_str += ","
@@ -727,7 +727,7 @@ class NumericalMultiplicationOperator(BinaryOperator):
                 cur_el1 = self.element_1
                 for i in self.index:
                     cur_el1 = cur_el1[i]
-                return "({}) * ({})".format(str(self.element_2), cur_el1.term(time))
+                return "({}) * ({})".format(extractTerm(self.element_2, time), cur_el1.term(time))
 
             elif(el2_arrayed):
                 cur_el2 = self.element_2
@@ -736,9 +736,9 @@ class NumericalMultiplicationOperator(BinaryOperator):
                 return "({}) * ({})".format(cur_el2.term(time), self.element_1.term(time))
 
             else:
-                return "(" + str(self.element_2) + ") * (" + self.element_1.term(time) + ")"
+                return "(" + str(extractTerm(self.element_2, time)) + ") * (" + self.element_1.term(time) + ")"
         else:
-            return "(" + str(self.element_2) + ") * (" + self.element_1.term(time) + ")"
+            return "(" + str(extractTerm(self.element_2, time)) + ") * (" + self.element_1.term(time) + ")"
 
     def resolve_dimensions(self):
         dim1 = _get_element_dimensions(self.element_1)
@@ -1162,7 +1162,7 @@ class Lookup(Function):
             self.points = points
 
     def term(self, time="t"):
-        return "model._lookup({},{})".format(self.element, self.points)
+        return "model._lookup({},{})".format(extractTerm(self.element, time), self.points)
 
 
 class Step(Function):
@@ -1264,7 +1264,7 @@ class Delay(Function):
 
 
 def extractTerm(obj, time):
-    return obj.term(time) if isinstance(obj, Operator) else obj
+    return obj.term(time) if isinstance(obj, (Operator, BPTK_Py.sddsl.element.Element)) else obj
 
 
 class Random(Function):
